@@ -97,6 +97,12 @@ M = [
  ("c05-tokenized-redundant-escape-changes-char", ["C05"], "vaporetto/src/sentence.rs",
   "                // escaped character or other character\n                (_, _) => {\n                    escape = false;\n                    if c == '\\0' {\n                        return Err(VaporettoError::invalid_argument(\n                            \"tokenized_text\",",
   "                // escaped character or other character\n                (_, c) => {\n                    let c = if escape && c == 'a' { 'A' } else { c };\n                    escape = false;\n                    if c == '\\0' {\n                        return Err(VaporettoError::invalid_argument(\n                            \"tokenized_text\","),
+ ("c17-convert-tool-forgets-finish", ["C17"], "convert_kytea_model/src/main.rs",
+  "    model.write(&mut f)?;\n    f.finish()?;\n",
+  "    model.write(&mut f)?;\n    drop(f);\n"),
+ ("c17-convert-tool-unwraps-read", ["C17"], "convert_kytea_model/src/main.rs",
+  "    let model = KyteaModel::read(&mut f)?;",
+  "    let model = KyteaModel::read(&mut f).unwrap();"),
 ]
 
 def main():
